@@ -12,7 +12,9 @@ TECH = "bounded symbolic execution of the real Python source (pysym AST interpre
 CLAIMED = {
     "C19": ("DESIGN.md §4 C19",
             "For every Python int index (unbounded) and 0..4 items, and for all 1-2 character printable-ASCII names, "
-            "z3 shows lookup/membership of the real ItemsList agree with list semantics; bounded claim, not a proof.",
+            "z3 shows lookup/membership of the real ItemsList agree with list semantics; add_table / add_sheet after the history "
+            "[nothing | membership test | automatic add] -> optional rename give fresh automatic names, refuse case-variant duplicates "
+            "without change and append exactly one item; bounded claim, not a proof.",
             "trusted: pysym interpreter (validated by native witness replay on every run), z3; outside: save/reopen order, "
             "longer/non-ASCII names"),
 }
@@ -33,14 +35,16 @@ CLAIMED["C18"] = ("DESIGN.md §4 C18",
     "Every string of up to 3 arbitrary Unicode scalar values is tokenized symbolically by the real "
     "Tokenizer: z3 shows the only escaping exception is TokenizerError and the token texts concatenate to the input; quoted "
     "strings over a 8-symbol alphabet up to length 5 and quoted names / quoted ranges (escaped quotes in any end point) over "
-    "the alphabet ' : a of length 7 (8 with space, thorough) are never split; formulas rendered by the reader's own handlers are accepted.",
+    "the alphabet ' : a of length 7 (8 with space, thorough) are never split; formulas rendered by the reader's own handlers are accepted; "
+    "a formula tokenized after another (accepted or rejected) formula is tokenized as if alone (2+2 characters, thorough 3+3).",
     "trusted: pysym, regex alphabet-partition model, float(str) outcome model; outside: longer strings, fixture formulas; reader output limited to string+integer+reference operands, one operator, one function")
 CLAIMED["C11"] = ("DESIGN.md §4 C11",
     "Row/column arguments are unbounded symbolic ints: z3 shows Table.cell, write, set_cell_style (through "
     "_validate_cell_coords) and iter_rows/iter_cols of the real code address exactly the stated cell/rectangle, agree with "
-    "the A1 form, raise IndexError outside, and grow the table to exactly the needed size (small-scope shapes).",
+    "the A1 form, raise IndexError outside, and grow the table to exactly the needed size (small-scope shapes); symbolic A1 "
+    "text of 1-3 letters and 1..8 digits with optional '$' names the position its letters and digits say and is refused at/after the limits.",
     "trusted: pysym; Table built directly over real cells with a stub model; outside: growth > 3, shapes beyond 3x2, "
-    "set_cell_formatting/set_cell_border beyond the shared coordinate check")
+    "set_cell_formatting/set_cell_border beyond the shared coordinate check, lower-case A1 spellings")
 
 CLAIMED["C03"] = ("DESIGN.md §4 C03",
     "One inductive step from an arbitrary valid table state: for add_row/add_column/delete_row/delete_column/write with "
@@ -48,19 +52,22 @@ CLAIMED["C03"] = ("DESIGN.md §4 C03",
     "grid a plain list-of-lists yields, restores the representation invariant (each cell reports its own position), and "
     "rejects out-of-range starts without change. By induction: histories of any length over these operations (small-scope shapes). "
     "Two consecutive real model.add_table calls (over an attribute-bag object store) give tables that share none of their "
-    "per-table objects (string/style/formula/format lists, header buckets, stroke sidecar).",
+    "per-table objects (string/style/formula/format lists, header buckets, stroke sidecar); a second save of one open document "
+    "rebuilds the string list from the current cells (no stale keys).",
     "trusted: pysym; stub model (row/column counters, empty merge map); protobuf messages as attribute bags in the clone harness; "
     "outside: save/reopen, add_sheet, contents of cloned protobuf objects, isolation between documents, shapes beyond 3x2")
 CLAIMED["C12"] = ("DESIGN.md §4 C12",
     "All rectangles in tables up to 3x3 (and disjoint pairs given as a list): z3 shows anchor, placeholders, untouched cells "
     "and merge_ranges of the real merge_cells/_set_merge are exactly the rectangle; the real merge-map writer/reader pair is "
-    "checked as a codec over symbolic origins within the table limits; one insertion step after a merge. Two known findings.",
+    "checked as a codec over symbolic origins within the table limits; a merge recorded by a merge-owner dependency and a merge "
+    "saved to the region map are both seen by a fresh reader; one insertion step after a merge. Two known findings.",
     "trusted: pysym; record stubs for protobuf CellID/TableSize (uint32 range enforced); outside: reload through real archives")
 
 CLAIMED["C06"] = ("DESIGN.md §4 C06",
     "Real DataLists/table_string code over 1..4 lookup-list entries with symbolic distinct keys in any order (lookup finds "
     "the entry, re-keying is injective); narrow vs wide row offsets decode identically; every stored row is reported at the "
-    "index its record declares for any subset of stored rows / header records / tile split (4 rows).",
+    "index its record declares for any subset of stored rows / header records / zero-cell row records / tile split (4 rows); "
+    "a second save with different contents re-keys the string list consistently.",
     "trusted: pysym; object store and protobuf records are attribute bags; outside: zip member order, compression method, "
     "package-folder form, chunk boundaries (C05)")
 
@@ -84,10 +91,12 @@ CLAIMED["C14"] = ("DESIGN.md §4 C14",
     "minutes, seconds, microseconds) and symbolic calendar fields (all valid dates of years 1000..9999): z3 shows the "
     "text has the documented width and denotes the field; the real format scanner equals a reference scanner on every "
     "format string of <= 3/4 arbitrary characters; durations read back unit by unit equal the duration truncated to the "
-    "smallest unit: whole seconds for all unit pairs and styles, and millisecond-resolution durations (0..10^7 ms quick, "
-    "0..10 years thorough) incl. the millisecond unit and automatic units, on an IEEE-754 error-enclosure model of the floats.",
+    "smallest unit: whole seconds for all unit pairs and styles, and millisecond-resolution durations (0..10^7 ms quick; "
+    "thorough: all unit pairs over the windows 0..10^7 ms and +-2 s around one week, two weeks and ten years) incl. the "
+    "millisecond unit and automatic units, on an IEEE-754 error-enclosure model of the floats. The week directives W (week of "
+    "the month) and ww (week of the year) are decided for all dates of years 1000..9999.",
     "trusted: pysym, exact-integer datetime/strftime model (C locale), lemma cut for int(d/k), binary64 round-to-nearest "
-    "enclosure (forward error analysis in linear real/integer arithmetic: sound over-approximation); outside: names, W/ww, "
+    "enclosure (forward error analysis in linear real/integer arithmetic: sound over-approximation); outside: weekday/month names, G, "
     "durations that are not whole milliseconds, negative durations")
 
 CLAIMED["C01"] = ("DESIGN.md §4 C01",
@@ -103,7 +112,8 @@ CLAIMED["C01"] = ("DESIGN.md §4 C01",
 CLAIMED["C02"] = ("DESIGN.md §4 C02",
     "Per-record re-save fix-point on the real codec: for 116 symbolic record bytes of each storable kind carrying only "
     "fields the writer knows, decode -> encode -> decode gives the same class, payload and ids, reading accessors in "
-    "between changes nothing, and a second encode is byte-identical. The document-level quantifier is outside this technique.",
+    "between changes nothing, and a second encode is byte-identical; the string list is re-keyed consistently by a second save of "
+    "one open document. The document-level quantifier is outside this technique.",
     "trusted: pysym; decimal128 pack/unpack treated as mutually inverse uninterpreted functions here (C01 decides values); "
     "string table stub; outside: whole documents, fixtures, formula text, bullets, merge maps, IWA copy-back")
 
@@ -119,8 +129,8 @@ CLAIMED["C16"] = ("DESIGN.md §4 C16",
 CLAIMED["C07"] = ("DESIGN.md §4 C07",
     "The real recalculate_row_info (offsets in bounds, 4-byte aligned, increasing, decoded back by the library's own "
     "reader), the real tile loop of recalculate_table_data for a symbolic number of rows across the 256/512 boundaries "
-    "(every row in exactly one tile at its declared index), and the real ObjectStore id allocation for symbolic existing "
-    "ids (fresh, distinct, high-water mark updated).",
+    "(every row in exactly one tile at its declared index; a tile list that starts with stale entries ends with exactly the "
+    "tiles of this save), and the real ObjectStore id allocation for symbolic existing ids (fresh, distinct, high-water mark updated).",
     "trusted: pysym; protobuf records and the object store are attribute bags, other save steps are no-op stubs; outside: "
     "reference closure, package metadata listing, re-openability by Numbers")
 
@@ -132,7 +142,8 @@ CLAIMED["C13"] = ("DESIGN.md §4 C13",
     "value rounded to the shown denominator, sign and whole part kept. Scientific: the real _format_scientific on every float "
     "of 1..15 significant digits reads back as the value rounded to places+1 digits in d.dddE+XX form. Decimal/percent: the real "
     "_format_decimal (and Cell._custom_format with the value * 100 product carrying symbolic rounding noise) reads back as the "
-    "value rounded to the decimals shown, which are as many as asked for; _custom_format routes every FormatType to its formatter; "
+    "value rounded to the decimals shown, which are as many as asked for; _custom_format routes every FormatType to its formatter, "
+    "and a cell re-formatted after it was read shows its current format on every later read; "
     "separators, negative styles, symbols, accounting layout and percent only decorate.",
     "trusted: pysym; sigfig's numeric contract on digit vectors (15 significant digits, half away from zero, grouping), compared "
     "with the real sigfig on every native replay; float product noise bound (<= 2 ulp, direction symbolic); math.log2 thresholds taken from the running interpreter; float.__format__ '.NE' = correctly rounded decimal "
@@ -169,7 +180,9 @@ CLAIMED["C15"] = ("DESIGN.md §4 C15 (partial)",
     "line of 6 cells: the stored runs, read back with 'highest order wins', show at every position the most recent stroke "
     "covering it (saved file agrees with the open document); Style objects: assigning any one of the 16 public attributes stores "
     "exactly it and marks exactly the style archive(s) it lives in for rewriting, a style read from a cell carries attribute by "
-    "attribute what the model reports, wrongly typed attributes are refused. Writing/re-reading style archives is NOT claimed.",
+    "attribute what the model reports, wrongly typed attributes are refused; on save (real update_cell_styles) every styled cell "
+    "is given a cell-style archive built from its own current cell-level attributes, for any two background colours in one table "
+    "and again after a change between two saves. The contents of the style archives and re-reading them are NOT claimed.",
     "trusted: pysym; stroke run / layer records as attribute bags, create_stroke reduced to its contract; outside: style "
     "archives (nested protobuf), images, fonts, interior edges of merged blocks")
 
@@ -178,10 +191,12 @@ CLAIMED["C20"] = ("DESIGN.md §4 C20 (partial)",
     "(thorough: 4) arbitrary Unicode characters with --whitespace and --no-header on/off: z3 shows a cell becomes a number only "
     "when float() gives a finite value - nan / inf / infinity spellings stay text - and that text is kept character for character "
     "(or whitespace-squeezed as documented); rows keep file order (reversed as a whole with --reverse) and one value per column "
-    "(known finding: duplicate header names); --delete / --rename touch exactly the named column. The csv module, the Document save/reopen and the cat-numbers export are NOT covered.",
+    "(known finding: duplicate header names); --delete / --rename touch exactly the named column; a cell spelling a finite float "
+    "(1-3 symbolic digits, decimal exponents -5..300, repr() spelling) is stored, through the real cell codec, as exactly that float. "
+    "The csv module, the Document save/reopen and the cat-numbers export are NOT covered.",
     "trusted: pysym; float(str) decided by the real float() on class-representative strings after forking every symbolic character "
     "into its lexical class; Converter built without reading a file; outside: csv reader/writer (C level), document I/O and export, "
-    "numeric value round trip (C01), --date columns, command-line error reporting")
+    "other spellings of a number than repr()'s, --date columns, command-line error reporting")
 
 NOT_APPLICABLE = {}
 
